@@ -26,9 +26,10 @@ pub enum Family {
     UnusedVar,
     PrimalDualInfeasible,
     Trivial,
+    Stalling,
 }
 
-pub const ALL_FAMILIES: [Family; 16] = [
+pub const ALL_FAMILIES: [Family; 17] = [
     Family::Knapsack,
     Family::Covering,
     Family::Assignment,
@@ -45,6 +46,7 @@ pub const ALL_FAMILIES: [Family; 16] = [
     Family::UnusedVar,
     Family::PrimalDualInfeasible,
     Family::Trivial,
+    Family::Stalling,
 ];
 
 impl Family {
@@ -66,6 +68,7 @@ impl Family {
             Family::UnusedVar => "unused-var",
             Family::PrimalDualInfeasible => "primal-dual-infeasible",
             Family::Trivial => "trivial",
+            Family::Stalling => "stalling",
         }
     }
 }
@@ -192,7 +195,22 @@ fn point_in(rng: &mut Rng, d: &Dom, lim: &GenLimits) -> f64 {
 }
 
 fn var_names(rng: &mut Rng, n: usize) -> Vec<String> {
-    let style = rng.below(4);
+    let style = rng.below(5);
+    if style == 4 && n <= 12 {
+        // the names a compiled model really carries: the linearizer's own auxiliaries
+        // (`$abs_0`, `$max_1_select_0`, ...) next to ordinary ones. They share their first
+        // characters with the standardizer's internal columns (`$a_`, `$su_`, `$sl_`,
+        // `$p..`, `$m..`) without being any of them.
+        let mut pool = vec![
+            "$abs_0", "$abs_0_positive", "$min_0", "$max_1", "$max_1_select_0", "$and_0",
+            "$or_0", "$xor_0", "$iff_0", "$implies_0", "$logic_witness_0", "x", "y", "s", "a",
+        ];
+        rng.shuffle(&mut pool);
+        return pool[..n].iter().map(|s| s.to_string()).collect();
+    }
+    if style == 4 {
+        return (0..n).map(|i| format!("x{i}")).collect();
+    }
     if style == 3 && n <= 10 {
         // names that are prefixes / suffixes of one another, in a seeded order
         let mut pool = vec![
@@ -357,6 +375,7 @@ pub fn gen_family(rng: &mut Rng, fam: Family, lim: &GenLimits) -> GenModel {
                 obj: values,
                 offset: 0.0,
                 sense: Sense::Max,
+                decor: Vec::new(),
             }
         }
         Family::Covering => {
@@ -383,6 +402,7 @@ pub fn gen_family(rng: &mut Rng, fam: Family, lim: &GenLimits) -> GenModel {
                 obj: (0..n).map(|_| rng.range(1, 9) as f64).collect(),
                 offset: 0.0,
                 sense: Sense::Min,
+                decor: Vec::new(),
             }
         }
         Family::Assignment => {
@@ -421,6 +441,7 @@ pub fn gen_family(rng: &mut Rng, fam: Family, lim: &GenLimits) -> GenModel {
                 obj: (0..n).map(|_| rng.range(1, 9) as f64).collect(),
                 offset: 0.0,
                 sense: sense(rng),
+                decor: Vec::new(),
             }
         }
         Family::GeneralInt => {
@@ -436,6 +457,7 @@ pub fn gen_family(rng: &mut Rng, fam: Family, lim: &GenLimits) -> GenModel {
                 rows,
                 offset: 0.0,
                 sense: sense(rng),
+                decor: Vec::new(),
             }
         }
         Family::Mixed => {
@@ -454,6 +476,7 @@ pub fn gen_family(rng: &mut Rng, fam: Family, lim: &GenLimits) -> GenModel {
                 rows,
                 offset: 0.0,
                 sense: sense(rng),
+                decor: Vec::new(),
             }
         }
         Family::Continuous => {
@@ -468,6 +491,7 @@ pub fn gen_family(rng: &mut Rng, fam: Family, lim: &GenLimits) -> GenModel {
                 rows,
                 offset: 0.0,
                 sense: sense(rng),
+                decor: Vec::new(),
             }
         }
         Family::FreeFace => {
@@ -512,6 +536,7 @@ pub fn gen_family(rng: &mut Rng, fam: Family, lim: &GenLimits) -> GenModel {
                 rows,
                 offset: 0.0,
                 sense: if minimize { Sense::Min } else { Sense::Max },
+                decor: Vec::new(),
             }
         }
         Family::InfeasibleLp => {
@@ -581,6 +606,7 @@ pub fn gen_family(rng: &mut Rng, fam: Family, lim: &GenLimits) -> GenModel {
                 rows,
                 offset: 0.0,
                 sense: sense(rng),
+                decor: Vec::new(),
             }
         }
         Family::UnboundedIntFeasible | Family::RelaxUnboundedIntInfeasible => {
@@ -643,6 +669,7 @@ pub fn gen_family(rng: &mut Rng, fam: Family, lim: &GenLimits) -> GenModel {
                 rows,
                 offset: 0.0,
                 sense: if maximize { Sense::Max } else { Sense::Min },
+                decor: Vec::new(),
             }
         }
         Family::EqualityDense => {
@@ -691,6 +718,7 @@ pub fn gen_family(rng: &mut Rng, fam: Family, lim: &GenLimits) -> GenModel {
                 rows,
                 offset: 0.0,
                 sense: sense(rng),
+                decor: Vec::new(),
             }
         }
         Family::Degenerate => {
@@ -738,6 +766,7 @@ pub fn gen_family(rng: &mut Rng, fam: Family, lim: &GenLimits) -> GenModel {
                 rows,
                 offset: 0.0,
                 sense: sense(rng),
+                decor: Vec::new(),
             }
         }
         Family::UnusedVar => {
@@ -775,6 +804,51 @@ pub fn gen_family(rng: &mut Rng, fam: Family, lim: &GenLimits) -> GenModel {
             }
             m
         }
+        Family::Stalling => {
+            // a classical cycling LP (Beale, Marshall-Suurballe, Chvatal, Kuhn) stated with
+            // inequality rows, its rows in a seeded order, plus a couple of upper-bound rows
+            // of different tightness on one variable: a simplex stalls at the degenerate
+            // origin for many pivots (long enough for an anti-cycling fallback to engage)
+            // and must then still take a correct ratio test among distinct ratios
+            let classics = crate::tableau_world::classic_cases();
+            let (_, block) = &classics[rng.usize(0, classics.len() - 1)];
+            let crate::tableau_world::TableauSource::Canonical { c, a, b, basis, .. } = block else {
+                unreachable!()
+            };
+            let structural: Vec<usize> = (0..c.len()).filter(|j| !basis.contains(j)).collect();
+            let n = structural.len();
+            let mut rows: Vec<Row> = a
+                .iter()
+                .zip(b)
+                .map(|(ai, bi)| Row {
+                    name: String::new(),
+                    coefs: structural.iter().map(|j| ai[*j]).collect(),
+                    cmp: Cmp::Le,
+                    rhs: *bi,
+                })
+                .collect();
+            if rng.chance(1, 2) {
+                rng.shuffle(&mut rows);
+            }
+            let j = rng.usize(0, n - 1);
+            let mut caps: Vec<f64> = vec![rng.range(1, 4) as f64, rng.range(1, 4) as f64];
+            caps.truncate(rng.usize(0, 2));
+            for cap in caps {
+                let mut coefs = vec![0.0; n];
+                coefs[j] = 1.0;
+                let pos = rng.usize(0, rows.len());
+                rows.insert(pos, Row { name: String::new(), coefs, cmp: Cmp::Le, rhs: cap });
+            }
+            let flip = rng.chance(1, 2);
+            GenModel {
+                vars: mk_vars(var_names(rng, n), vec![Dom::NonNeg { lo: 0.0, hi: None }; n]),
+                rows,
+                obj: structural.iter().map(|j| if flip { -c[*j] } else { c[*j] }).collect(),
+                offset: 0.0,
+                sense: if flip { Sense::Max } else { Sense::Min },
+                decor: Vec::new(),
+            }
+        }
         Family::Trivial => {
             // degenerate shapes: no variables at all, or variables but no rows
             if rng.chance(1, 2) {
@@ -784,6 +858,7 @@ pub fn gen_family(rng: &mut Rng, fam: Family, lim: &GenLimits) -> GenModel {
                     obj: vec![],
                     offset: 0.0,
                     sense: sense(rng),
+                    decor: Vec::new(),
                 }
             } else {
                 let n = rng.usize(1, 2);
@@ -802,6 +877,7 @@ pub fn gen_family(rng: &mut Rng, fam: Family, lim: &GenLimits) -> GenModel {
                     obj: random_obj(rng, n, lim),
                     offset: 0.0,
                     sense: sense(rng),
+                    decor: Vec::new(),
                 }
             }
         }
@@ -845,6 +921,7 @@ pub fn gen_family(rng: &mut Rng, fam: Family, lim: &GenLimits) -> GenModel {
                 rows,
                 offset: 0.0,
                 sense: Sense::Max,
+                decor: Vec::new(),
             }
         }
     };
@@ -854,6 +931,36 @@ pub fn gen_family(rng: &mut Rng, fam: Family, lim: &GenLimits) -> GenModel {
 
 fn post_mutate(rng: &mut Rng, m: &mut GenModel, lim: &GenLimits) {
     let n = m.n();
+    // decorations: piecewise-linear constraints implied by the variable ranges, stated
+    // through the builder only, so that what the builder compiles and solves carries the
+    // linearizer's auxiliary columns
+    // (not next to variables that wear the linearizer's own names: those would collide)
+    if rng.chance(1, 5) && !m.vars.iter().any(|v| v.name.starts_with('$')) {
+        let bounded: Vec<usize> = (0..n)
+            .filter(|i| {
+                let (lo, hi) = m.vars[*i].dom.bounds_f64();
+                lo.is_finite() && hi.is_finite()
+            })
+            .collect();
+        if bounded.len() >= 2 {
+            for _ in 0..rng.range(1, 2) {
+                let i = bounded[rng.usize(0, bounded.len() - 1)];
+                let j = bounded[rng.usize(0, bounded.len() - 1)];
+                if i == j {
+                    continue;
+                }
+                let (li, hi) = m.vars[i].dom.bounds_f64();
+                let (lj, hj) = m.vars[j].dom.bounds_f64();
+                let slack = rng.range(0, 2) as f64;
+                let d = match rng.weighted(&[50, 25, 25]) {
+                    0 => Decor::AbsLe { i, j, bound: (hi - lj).max(hj - li) + slack },
+                    1 => Decor::MaxGe { i, j, bound: li.max(lj) - slack },
+                    _ => Decor::MinLe { i, j, bound: hi.min(hj) + slack },
+                };
+                m.decor.push(d);
+            }
+        }
+    }
     // duplicate a row
     if !m.rows.is_empty() && m.rows.len() < lim.max_rows && rng.chance(1, 10) {
         let r = m.rows[rng.usize(0, m.rows.len() - 1)].clone();
@@ -936,11 +1043,11 @@ fn post_mutate(rng: &mut Rng, m: &mut GenModel, lim: &GenLimits) {
 }
 
 /// Draws a family with the given weights (aligned with `ALL_FAMILIES`).
-pub fn pick_family(rng: &mut Rng, weights: &[u64; 16]) -> Family {
+pub fn pick_family(rng: &mut Rng, weights: &[u64; 17]) -> Family {
     ALL_FAMILIES[rng.weighted(weights)]
 }
 
-pub fn gen_model(rng: &mut Rng, weights: &[u64; 16], lim: &GenLimits) -> (Family, GenModel) {
+pub fn gen_model(rng: &mut Rng, weights: &[u64; 17], lim: &GenLimits) -> (Family, GenModel) {
     for _ in 0..50 {
         let fam = pick_family(rng, weights);
         let m = gen_family(rng, fam, lim);
@@ -981,5 +1088,6 @@ pub fn gen_subset_sum(rng: &mut Rng, n: usize, rows: usize, planted: bool) -> Ge
         obj: vec![0.0; n],
         offset: 0.0,
         sense: Sense::Satisfy,
+        decor: Vec::new(),
     }
 }
